@@ -36,6 +36,7 @@ func VerifH_negotiate_type() {
 	n := 1 + vfLen(1)
 	var ranges []vfRange
 	accept := ""
+	var lines []string
 	for i := 0; i < n; i++ {
 		var r vfRange
 		switch vfChoice(6) {
@@ -73,15 +74,22 @@ func VerifH_negotiate_type() {
 		}
 		ranges = append(ranges, r)
 		if i > 0 {
-			if vfBool() {
+			switch vfChoice(3) {
+			case 0:
 				accept += ", "
-			} else {
+			case 1:
 				accept += ","
+			default:
+				// a further Accept header LINE (RFC 9110 5.3: equivalent to a comma-separated list)
+				lines = append(lines, accept)
+				accept = ""
+				vfCover("several-header-lines")
 			}
 		}
 		accept += text
 	}
-	h := http.Header{"Accept": []string{accept}}
+	lines = append(lines, accept)
+	h := http.Header{"Accept": lines}
 	got := negotiateContentType(h, vfOffers, "d/e")
 	admitted := func(offer string) bool {
 		for _, r := range ranges {
